@@ -270,7 +270,7 @@ theorem quiet_block_effect (s : App) (c : CSet) (b : Block) (g : G s c) (q : Qui
   obtain ⟨ups, c', L, T, he, hc, hag, g4⟩ := endBlock_G _ c m3 f3
   refine ⟨⟨(runTxs genEnv b.txs s2 [] []).1, ups⟩, _, c', ?_, hc, g4, ?_⟩
   · unfold block
-    rw [beforeEnd_eq, hbegin]
+    rw [beforeEnd_eq _ _ _ q.noGov, hbegin]
     simp only [he]
   · intro hok
     have hq := q.txs s2 hbegin
